@@ -209,12 +209,13 @@ def run(ctx):
             # reverted.insert (the one after the get_kernel call) only on the is_none() true edge of its answer
             after = cfg.reach(fr, starts=[fr.bbs[gk[0][0]]["t"]["t"]])
             late_ins = [b for b in ins if b in after]
-            isn = [(b, t) for b, t in fr.calls() if t.get("f") == "core::option::Option::<T>::is_none" and vf.has_call(vf.producers(fr, t["a"][0]), c.LW + "types::NodeClient::get_kernel")]
-            held = bool(late_ins) and len(isn) == 1
+            from .shared import option_value_none_edges
+            GK = c.LW + "types::NodeClient::get_kernel"
+            none_e = option_value_none_edges(fr, lambda srcs: vf.has_call(srcs, GK))
+            held = bool(late_ins) and bool(none_e)
             if held:
-                g = cfg.call_guard(fr, isn[0][0])
-                par = cfg.reach(fr, starts=[fr.bbs[gk[0][0]]["t"]["t"]], cut_edges=g.ok)
-                held = bool(g.ok) and not any(b in par for b in late_ins)
+                par = cfg.reach(fr, starts=[fr.bbs[gk[0][0]]["t"]["t"]], cut_edges=none_e)
+                held = not any(b in par for b in late_ins)
         run.instance(R4, {"fn": "find_reverted_kernels", "obligation": "a kernel is 'reverted' only if the node's get_kernel answered Ok(None)"}, held=held)
         if not held:
             run.finding(Finding(R4, fr.id, "kernels are reported reverted without a negative answer from the node", site=fr.loc()))
